@@ -175,8 +175,12 @@ class ConstantStreamGenerator(Elaboratable):
             bytes_per_word = 0
 
 
+        # The start position is applied when start() is pulsed; remember the value that was requested,
+        # so a later change of the input cannot move (or remove) our `first` marker.
+        requested_start = Signal.like(self.start_position)
+
         # Track when we're on the first and last packet.
-        on_first_packet = position_in_stream == self.start_position
+        on_first_packet = position_in_stream == requested_start
         on_last_packet  = \
             (position_in_stream          == (data_length - 1)) | \
             (bytes_sent + bytes_per_word >= max_length)
@@ -222,6 +226,7 @@ class ConstantStreamGenerator(Elaboratable):
                 # Keep ourselves at the beginning of the stream, but don't yet count.
                 m.d.sync += [
                     position_in_stream  .eq(start_position),
+                    requested_start     .eq(self.start_position),
                     bytes_sent          .eq(0)
                 ]
                 m.d.comb += [
